@@ -35,6 +35,8 @@ DEFAULT_OPTS = dict(
     metric=None,  # None | "any"
     ifuns=False,  # interpreted functions (given as finite tables)
     traj=False,  # PDDL3 trajectory constraints (sometime, at-most-once, sometime-before/after)
+    cond_prob=0.3,  # probability that an effect is conditional (when `conditional`)
+    op_bias=None,  # {connective: extra weight} -- makes a compiler's own feature frequent in its corpus
 )
 
 
@@ -348,6 +350,9 @@ class Gen:
             ops += ["implies", "iff"]
         if o["quantifiers"]:
             ops += ["exists", "forall"]
+        for bop, w in (o["op_bias"] or {}).items():
+            if bop in ops:
+                ops += [bop] * w
         op = r.choice(ops)
         if op in ("and", "or"):
             n = 3 if r.random() < 0.15 else 2
@@ -430,7 +435,7 @@ class Gen:
             else:
                 v = num(r.choice([1, 1, 1, 2] if intonly else [1, Fraction(1, 2), 1, Fraction(3, 2)]))
         c = TRUE_E
-        if o["conditional"] and r.random() < 0.3:
+        if o["conditional"] and r.random() < o["cond_prob"]:
             c = self.bool_expr(r.choice([1, 1, 1, 2]), params, vs)
         return {"kind": kind, "f": {"name": target["name"], "args": target["args"]}, "v": v, "c": c, "forall": fa}
 
